@@ -142,6 +142,29 @@ Definition expected_field (c : convertor) (m : kmsg) (r : krecord) (kd : pkind) 
 Definition well_typed_record (c : convertor) (r : krecord) : bool :=
   forallb (fun e => match conv_lookup (cv_rows c) (e_name e) (kind_tag (e_val e)) with WrongKind => false | _ => true end) r.
 
+(* ---------------------------------------------------------------- hypotheses on streams *)
+Definition len_ok (s : list byte) : bool := N.of_nat (length s) <? 18446744073709551616.
+(* numbers fit the Go type of their element kind; strings are shorter than 2^64 bytes *)
+Definition value_in_range (v : value) : bool :=
+  match v with
+  | VU8 n => n <? 256 | VU16 n => n <? 65536
+  | VU32 n | VDts n => n <? 4294967296
+  | VU64 n | VDtms n => n <? 18446744073709551616
+  | VStr s => len_ok s
+  | _ => true
+  end.
+Definition elem_ok (e : elem) : bool := value_in_range (e_val e) && len_ok (e_ipstr e).
+Definition elem_utf8 (e : elem) : bool :=
+  match e_val e with VStr s => valid_utf8 s | VIP _ => valid_utf8 (e_ipstr e) | _ => true end.
+(* well-typed: every mapped element has the element kind its getter expects (no getter panic) and
+   numbers fit their Go types *)
+Definition msg_typed (c : convertor) (m : kmsg) : bool :=
+  (k_time m <? 4294967296) && (k_seq m <? 4294967296) && (k_dom m <? 4294967296) && len_ok (k_addr m) &&
+  forallb (fun r => well_typed_record c r && forallb elem_ok r) (records_of m).
+(* the hypothesis surfaced by the proof (finding F10): all strings are valid UTF-8 *)
+Definition msg_utf8 (m : kmsg) : bool :=
+  valid_utf8 (k_addr m) && forallb (forallb elem_utf8) (records_of m).
+
 (* sanity of the regenerated converter tables: header fields and every mapped field exist in the
    schema with a kind that holds the element kind's full range (no truncation) *)
 Definition tag_fits (tag : string) (kd : pkind) : bool :=
